@@ -536,6 +536,10 @@ func extractAddressInfos(pkScript []byte) (scriptClass txscript.ScriptClass, rec
 		recipient = std.EncodeAddress()
 		staking = addrs[0].EncodeAddress()
 	case txscript.BindingScriptHashTy:
+		// the consensus reader omits a binding target it cannot decode (unknown type, bad size)
+		if len(addrs) < 2 {
+			return 0, "", "", "", 0, fmt.Errorf("no binding target parsed from output script")
+		}
 		targetType := "MASS"
 		targetSize := 0
 		if len(addrs[1].ScriptAddress()) == 22 {
